@@ -68,12 +68,13 @@ package couchbase
 
 //@ func (*observer).needCatchup
 //@ params so seqNo
-//@ props C08
+//@ props C08 C03
 //@ requires so != nil
-//@ ensures.done[C08] !old(so.isCatchupNeed) ==> result == false && so.isCatchupNeed == false
-//@ ensures.below[C08] old(so.isCatchupNeed) && seqNo < so.catchupSeqNo ==> result == true && so.isCatchupNeed == true
-//@ ensures.at[C08] old(so.isCatchupNeed) && seqNo == so.catchupSeqNo ==> result == true && so.isCatchupNeed == false
-//@ ensures.above[C08] old(so.isCatchupNeed) && seqNo > so.catchupSeqNo ==> result == false && so.isCatchupNeed == false
+//@ ensures.done[C08,C03] !old(so.isCatchupNeed) ==> result == false && so.isCatchupNeed == false
+//@ ensures.below[C08,C03] old(so.isCatchupNeed) && seqNo < old(so.catchupSeqNo) ==> result == true && so.isCatchupNeed == true
+//@ ensures.at[C08,C03] old(so.isCatchupNeed) && seqNo == old(so.catchupSeqNo) ==> result == true && so.isCatchupNeed == false
+//@ ensures.above[C08,C03] old(so.isCatchupNeed) && seqNo > old(so.catchupSeqNo) ==> result == false && so.isCatchupNeed == false
+//@ ensures.position_kept[C08,C03] so.catchupSeqNo == old(so.catchupSeqNo)
 //@ modifies so.isCatchupNeed
 
 //@ func (*observer).SetCatchup
@@ -169,6 +170,8 @@ package couchbase
 //@ ensures.recorded_for_the_reporting_copy[C07] news ==> reps[replica].seqNo == result.PersistSeqNo && reps[replica].vbUUID == result.VbUUID
 //@ ensures.other_copies_untouched[C07] forall j int :: 0 <= j && j < len(reps) && (j != replica || !news) ==> reps[j].seqNo == old(reps[j].seqNo) && reps[j].vbUUID == old(reps[j].vbUUID) && reps[j].absent == old(reps[j].absent)
 //@ ensures.announced_once_with_the_minimum[C07] news ==> calls("field:couchbase.rollbackMitigation.persistSeqNoDispatcher") == 1 && dcalls("couchbase.(*rollbackMitigation).getMinSeqNo") == 1 && darg("couchbase.(*rollbackMitigation).getMinSeqNo", 0, vbID) == vbID && arg("field:couchbase.rollbackMitigation.persistSeqNoDispatcher", 0, persistSeqNo).VbID == vbID && arg("field:couchbase.rollbackMitigation.persistSeqNoDispatcher", 0, persistSeqNo).SeqNo == dret("couchbase.(*rollbackMitigation).getMinSeqNo", 0, 0)
+//@ rely "couchbase.(*rollbackMitigation).getMinSeqNo" presnap asked
+//@ ensures.minimum_taken_after_recording[C07] news ==> at(asked, reps[replica].seqNo) == result.PersistSeqNo && at(asked, reps[replica].vbUUID) == result.VbUUID
 //@ ensures.nothing_new_nothing_announced[C07] !news ==> calls("field:couchbase.rollbackMitigation.persistSeqNoDispatcher") == 0
 //@ modifies anything
 
